@@ -1133,7 +1133,7 @@ fn space(tier: &str) -> &'static Space {
         } else if tier == "search" {
             (vec![(3, 1), (3, 2), (3, 3), (2, 4)], 4000)
         } else {
-            (vec![(3, 1), (3, 2), (3, 3), (2, 4)], 600)
+            (vec![(3, 1), (3, 2), (3, 3), (2, 4)], 3000)
         };
         let mut boundary = vec![];
         for et in ETYPES {
@@ -1635,7 +1635,7 @@ fn main() {
                 let total_n: u64 = match tier.as_str() {
                     "thorough" => 200_000,
                     "search" => 10_000,
-                    _ => 3000,
+                    _ => 10_000,
                 };
                 let mut from = 0u64;
                 let mut crashes = 0;
